@@ -133,6 +133,19 @@ func c16(c *core.Ctx) {
 			c.Ob("C16.expiry", fname(schedExp)+"·retain-filter keeps the renewed instance", pos(c, r.at), r.identity, r.detail)
 		}
 	}
+	c.Rule("C16.pending", "renew() waits for pendingReq before it re-keys; the counter is balanced on every path of sendRequestWithTimeout (C19.pending applies verbatim): a failed send that leaves it incremented blocks the next renewal for ever, with the request gate held", 1)
+	{
+		tmp := core.NewCtx(c.Prop, c.Tier, c.P)
+		c19(tmp)
+		for _, e := range tmp.Errors {
+			c.Fatal("%s", e)
+		}
+		for _, o := range tmp.Obs {
+			if o.Rule == "C19.pending" {
+				c.Ob("C16.pending", o.Key, o.Pos, o.OK, o.Detail)
+			}
+		}
+	}
 	c.Rule("C16.trunc", "no time.Duration(x) conversion of a non-constant float number of seconds/milliseconds that is afterwards multiplied by a time unit: the fraction is lost before scaling (a 2.5 s token would be renewed after 1 s, a 1.2 s token immediately)", 1)
 	c.Rule("C16.once", "scheduleRenewal is started only from handleOpenSecureChannelResponse, as a goroutine, for the installed instance, on the `kind == client` edge, exactly once on every path from the installation of a client token to return", 1)
 	c.Rule("C16.gate", "renew() holds the request gate for the whole exchange: reqLocker.lock() dominates pendingReq.Wait() which dominates the call of open(), and reqLocker.unlock() is deferred before them", 1)
